@@ -95,6 +95,13 @@ def planH : Handler := fun args => do
   .ok (listReply [inputBytes r.cfg r.t r.fs, outBytes r.cfg lib r.t r.fs,
     boolBytes (minifyOk r.cfg lib r.w r.t r.fs)])
 
+/-- `model.c20.enabled <req>` → `ok` or the index of the first op of `minifyOps` whose precondition fails -/
+def enabledH : Handler := fun args => do
+  let r ← decodeReq args
+  match firstDisabled r.fs (minifyOps r.cfg r.w r.t r.fs) with
+  | none => .ok (strBytes "ok")
+  | some i => .ok (natBytes i)
+
 def decodeOp (g : List Bytes) : Except String Op :=
   match g with
   | [k, a, b] =>
@@ -138,6 +145,6 @@ def trigH : Handler := fun args => do
 
 def handlers : List (String × Handler) :=
   [("model.c20.ops", opsH), ("model.c20.run", runH), ("model.c20.plan", planH),
-   ("model.c20.exec", execH), ("spec.c20.safeinv", safeH), ("trig.c20.bakinput", trigH)]
+   ("model.c20.exec", execH), ("model.c20.enabled", enabledH), ("spec.c20.safeinv", safeH), ("trig.c20.bakinput", trigH)]
 
 end Verif.Driver.C20
